@@ -147,7 +147,9 @@ def run(R):
               "baseline zero or of the order of the receptor's own capture), in a quarter the sources differ in power up to "
               "2^20. Representations: filters, sources, domain, K, baseline, intensities and backgrounds are handed over as "
               "float/integer (whole-number intensities) arrays, Fortran-ordered, strided views or lists (as_given); every call "
-              "is checked for the frame condition (arguments and registered state unchanged by a query). Large batches (cases L*): "
+              "is checked for the frame condition (arguments and registered state unchanged by a query). Registered intensity bounds: in half of "
+              "the cases the system carries bounds (scalar or per source; lb, ub or both; given with the constructor or with register_bounds) "
+              "and the queried intensities and the adapting intensity background lie inside or outside them (counted): the model has no bounds. Large batches (cases L*): "
               "1e3..1e5 intensity vectors (image pixels / long stimulus sequences; the product filters x signals x domain up to 8e6 values) "
               "over 3-7 point or 20-60 point grids, array and scalar-step domains: the whole batch of system_capture / "
               "capture(X @ sources) / both relative captures is compared in floating point with A x and K(A x + baseline) from the exact "
@@ -185,9 +187,28 @@ def run(R):
         bgspec = dyadic(rng, 0.125, 2, 3, size=nd)
         add_baseline = bool(rng.integers(4) > 0)
         add = bool(rng.integers(3) == 0)
+        # registered intensity bounds of the system (own random stream): they restrict what a FIT may return, not which intensity
+        # vectors the linear model is asked about -- "all intensity vectors": the queried intensities and the adapting background lie
+        # inside or outside them (an adapting background brighter than the displayable range, darker than a non-zero lower bound).
+        # Given with the constructor, with register_system's successor register_bounds after construction, or left at the default.
+        rb = R.rng(11, k)
+        bounds_via = str(rb.choice(["default", "default", "constructor", "register_bounds"]))
+        lbv = ubv = None
+        if bounds_via != "default":
+            bshape = str(rb.choice(["scalar", "per-source"]))
+            which = str(rb.choice(["lb", "ub", "both", "both"]))
+            if which in ("lb", "both"):
+                lbv = float(dyadic(rb, 0.25, 1, 2)) if bshape == "scalar" else dyadic(rb, 0, 1, 2, size=ns)
+            if which in ("ub", "both"):
+                ubv = float(dyadic(rb, 1, 2.5, 2)) if bshape == "scalar" else dyadic(rb, 1, 2.5, 2, size=ns)
+            R.count("bounds:%s %s" % (bshape, which))
+            lo_ = np.broadcast_to(0.0 if lbv is None else lbv, (ns,)); hi_ = np.broadcast_to(np.inf if ubv is None else ubv, (ns,))
+            R.count("bounds:adapting intensities %s the registered bounds" % ("inside" if np.all((bgx >= lo_) & (bgx <= hi_)) else "outside"))
+            R.count("bounds:queried intensities %s the registered bounds" % ("inside" if np.all((X >= lo_) & (X <= hi_)) else "outside"))
+        R.count("bounds:given with %s" % bounds_via)
         c = dict(k=k, nf=nf, ns=ns, nd=nd, domain_kind=dkind, dom=dom, K_kind=str(kk), K=K, baseline_kind=str(bk),
                  baseline=base, filters=filt, sources=src, X=X, bg_x=bgx, bg_spec=bgspec, add_baseline=add_baseline, add=add,
-                 receptor_range=rk, source_range=sk)
+                 receptor_range=rk, source_range=sk, bounds_via=bounds_via, lb=lbv, ub=ubv)
         for key in ("domain_kind", "K_kind", "baseline_kind", "receptor_range", "source_range"):
             R.count("%s:%s" % (key, c[key]))
         R.count("adapt:add=%s,add_baseline=%s" % (add, add_baseline))
@@ -198,7 +219,9 @@ def run(R):
                  bgx=as_given(rng, bgx.copy(), R, "bg_x"), bgspec=as_given(rng, bgspec.copy(), R, "bg_spec"),
                  dom=(dom if np.isscalar(dom) else as_given(rng, dom.copy(), R, "domain", kinds=("same", "list", "strided"))),
                  K=(K if np.isscalar(K) else as_given(rng, K.copy(), R, "K")),
-                 base=(base if np.isscalar(base) else as_given(rng, base.copy(), R, "baseline")))
+                 base=(base if np.isscalar(base) else as_given(rng, base.copy(), R, "baseline")),
+                 lb=(lbv if (lbv is None or np.isscalar(lbv)) else as_given(rb, lbv.copy(), R, "lb")),
+                 ub=(ubv if (ubv is None or np.isscalar(ubv)) else as_given(rb, ubv.copy(), R, "ub")))
 
         def q(f, *a, **kw):
             # every implementation call goes through common.call: the arrays handed in and the registered state of the
@@ -208,8 +231,12 @@ def run(R):
                 raise ImplError(st_, v)
             return v
 
-        def impl(g=g, X=X, src=src, bgspec=bgspec, add_baseline=add_baseline, add=add, kk=kk):
-            est = q(dreye.ReceptorEstimator, g["filt"], domain=g["dom"], K=g["K"], baseline=g["base"], sources=g["src"])
+        def impl(g=g, X=X, src=src, bgspec=bgspec, add_baseline=add_baseline, add=add, kk=kk, bounds_via=bounds_via):
+            bkw = {kk_: g[kk_] for kk_ in ("lb", "ub") if g[kk_] is not None}
+            est = q(dreye.ReceptorEstimator, g["filt"], domain=g["dom"], K=g["K"], baseline=g["base"], sources=g["src"],
+                    **(bkw if bounds_via == "constructor" else {}))
+            if bounds_via == "register_bounds":
+                q(est.register_bounds, **bkw)
             out = dict(A=est.A.copy(), sc=q(est.system_capture, g["X"]), src=q(est.system_relative_capture, g["X"]))
             mix = X @ src
             out["cap_mix"] = q(est.capture, mix)
